@@ -23,7 +23,7 @@ open IsoVerif.Model.Resume IsoVerif.Lemmas.Resume IsoVerif.Props.C07
     not part of Model/ResumeMulti.lean), every directory order duplicate free -/
 def MWF (exps : List Exp) : Prop :=
   (exps.map (fun x => x.1)).Nodup ∧
-    ∀ x ∈ exps, WF x.2.1 ∧ (x.2.1.fromSaves = false ∧ x.2.1.gzRef = false) ∧ x.2.2.Nodup
+    ∀ x ∈ exps, WF x.2.1 ∧ (x.2.1.fromSaves = false ∧ x.2.1.gzRef = false ∧ x.2.1.idx = false) ∧ x.2.2.Nodup
 
 theorem idx_unique {exps : List Exp} (nd : (exps.map (fun x => x.1)).Nodup) {x y : Exp} (hx : x ∈ exps) (hy : y ∈ exps)
     (h : x.1 = y.1) : x = y := by
@@ -174,7 +174,7 @@ theorem exps2_wf : MWF exps2 := by
   simp only [exps2, mkExps, withCarried, List.zip_cons_cons, List.zip_nil_right, List.zipIdx_cons, List.zipIdx_nil,
     List.map_cons, List.map_nil, List.mem_cons, List.not_mem_nil, or_false] at hx
   rcases hx with rfl | rfl <;>
-    exact ⟨⟨by decide, by decide, by decide, fun _ => Iff.rfl, fun _ _ h => h⟩, ⟨rfl, rfl⟩, by decide⟩
+    exact ⟨⟨by decide, by decide, by decide, fun _ => Iff.rfl, fun _ _ h => h⟩, ⟨rfl, rfl, rfl⟩, by decide⟩
 
 /-- `mkExps` marks the second experiment: the first one has unaligned reads -/
 example : exps2.map (fun x => (x.1, x.2.1.carried)) = [(0, false), (1, true)] := by decide
